@@ -37,8 +37,8 @@ MANIFEST = {
             'wait exactly once (first success, or in await-all mode when confirmed+failed covers the attempted set), an own FAILED fails it exactly when '
             'every attempted upload failed and completes it in await-all mode when it was the last outstanding one with a success recorded; never '
             'fires a completed wait. The coroutine is proved to install the listener before its first await and to remove it on normal and exceptional exit.',
-    'level_note': 'Assumed (A): HS_DESC field layout, confirmed/failed subsets of attempted, Deferred semantics, tokenisation. '
-                  'Known finding: UPLOADED is matched by directory only (another service sharing the directory completes this one; pinned by existing tests). '
+    'level_note': 'Proof scope: an event is attributed to the service by the address the service has when the event arrives. Assumed (A): HS_DESC field layout, confirmed/failed subsets of attempted, Deferred semantics, tokenisation. '
+                  'Known finding: UPLOADED is matched by directory only (another service sharing the directory completes this one; pinned by existing tests); HS_DESC events of an ephemeral service that arrive before its ADD_ONION reply are dropped (the service id is not known yet). '
                   'Bounded (B): all orderings of UPLOAD/UPLOADED/FAILED over <= 3 directories with a second service, both modes, reply timing - in the twin.',
 }
 
@@ -90,7 +90,9 @@ def unit_hs_desc(kind):
             # hs_desc runs only while the wait is pending (see trusted base)
             H[('g', 'called', str(uploaded.t))] = z3.BoolVal(False)
             host = z3.String('onion_hostname')
-            H[('g', 'onion_hostname')] = VStr(host)
+            # an ephemeral service has no address until its ADD_ONION reply arrives
+            has_host = z3.Bool('onion_has_hostname')
+            H[('g', 'onion_hostname')] = VUnion([(has_host, VStr(host)), (z3.Not(has_host), NONE)])
             p.assume(z3.Not(z3.Bool('onion_is_authenticated')))
             for t in (att.n, conf.n, fail.n):
                 p.assume(t >= 0)
@@ -135,7 +137,7 @@ def unit_hs_desc(kind):
         action = F_tok(evt, 0)
         addr = F_tok(evt, 1)
         p.assume(action == mk_str(kind))
-        ours = host == z3.Concat(addr, mk_str('.onion'))
+        ours = z3.And(z3.Bool('onion_has_hostname'), host == z3.Concat(addr, mk_str('.onion')))
         ctx.cover('pre_satisfiable', p)
         ctx.cover('pre_foreign', p, z3.Not(ours))
         ctx.cover('pre_ours', p, ours)
@@ -238,7 +240,9 @@ def units():
 # ==========================================================================================
 # bounded twin (B): stand-alone module twin/tC15.py (real classes, oracle from the statement)
 from pyvc.report import adopt_twin
-FINDING_PATTERNS = []
+F_EARLY = 'own-events-before-creation-reply-dropped'
+FINDING_PATTERNS = [(r'foreign_UPLOADED', F_UPLOADED_FOREIGN),
+                    (r':(ephemeral|ephemeral_auth|legacy)/own_events_before_reply$', F_EARLY)]
 twin, _replay_twin = adopt_twin('twin.tC15', FINDING_PATTERNS)
 
 
